@@ -501,5 +501,8 @@ func CloneExpression(expr ast.Expression) ast.Expression {
 
 // ClonePosition returns a copy of position pos.
 func ClonePosition(pos *ast.Position) *ast.Position {
+	if pos == nil {
+		return nil
+	}
 	return &ast.Position{Line: pos.Line, Column: pos.Column, Start: pos.Start, End: pos.End}
 }
